@@ -109,6 +109,12 @@ inductive ColCopy where
   | shallow  -- `copy(...)` of the pair: the dict inside is shared with the class derived from
   deriving DecidableEq, Repr
 
+inductive DelayOrder where
+  | allFirst   -- a field added later is customised with `_delayed_child_attrs_all`, then with its own delayed
+               -- `child_attrs` entry: the specific entry wins, as for fields that existed                  (good)
+  | oneFirst   -- the other way round: `child_attrs_all` overrides the field's own entry
+  deriving DecidableEq, Repr
+
 inductive PatRule where
   | always          -- setting `pattern` (re)compiles `_pattern_re`                                   (good)
   | onlyWhenUnset   -- ... only when no compiled pattern is inherited: a re-derived pattern keeps the old regex
@@ -136,6 +142,9 @@ structure Facts15 where
   /-- the same for a class statement that declares its own `class Attributes(Base.Attributes)` -/
   varRuleX : VarRule
   patRule : PatRule
+  /-- order in which `append_field` / `insert_field` apply the delayed child attributes -/
+  delayAppend : DelayOrder
+  delayInsert : DelayOrder
   mslRule : MslRule
   colCopy : ColCopy
   /-- class namespaces / `dict(odict)` enumerate in insertion order (CPython >= 3.7) -/
